@@ -99,4 +99,11 @@ var props = []Prop{
 		Bounds:  "6 prefixes x 1 (thorough: 2) failed call(s) out of 9 illegal classes with all arguments symbolic and constrained only to be illegal per the documentation: Add/Remove/Exchange (dead or recycled entity, present/absent component, second relation), Assign (incl. no components), every accessor/mutator on a removed entity, Set / write through Get on a missing component, creation with two relations / target without relation / relation not among the components / non-relation named as relation (ids and values), duplicate ids (NewEntity, NewEntityWith, Add, Remove, Exchange), non-positive batch counts (fully symbolic count <= 0, NewBatch and NewBatchQ), Relations.Set and Relations.Exchange / Builder.Add with target (dead entity, wrong component, dead target, no effect); asserted: panic, then all observables = model, structural invariant, pool/index/row digest unchanged, world unlocked, and two further legal operations behave per the model; 2 configurations (thorough 24). Out-of-range query indices and non-positive steps are decided in C03, filter double (un)registration in C07, resources in C20, type limit in C16, LoadEntities in C17.",
 		Outside: "empty graph nodes / tables left behind by a failed graph walk (visible only through Stats().Nodes, not an observable named by the property); sequences of more than two failed calls",
 	},
+	{
+		ID: "C11",
+		Harnesses: []H{{Pkg: "ecs", Fn: "HC11_Events"}, {Pkg: "ecs", Fn: "HC11_Events", Tags: "tiny", Tier: "thorough"}},
+		Conform: []H{{Pkg: "ecs", Fn: "HSmoke"}, {Pkg: "ecs", Fn: "HConf_Prefixes"}},
+		Bounds:  "8 prefixes x 1 operation with a recording listener subscribed to everything: the 11 single-entity operation kinds with every legal argument, the 5 batch families incl. Q variants (events only at close/exhaustion), removal / retarget / Reset family, and no-op calls (Exchange/Add/Remove without components, Relations.Set to the current target); per event: type bits, Added/Removed masks, AddedIDs/RemovedIDs as sets, Old/NewRelation nil-ness and value, OldTarget, and what the world shows at delivery (lock state, liveness, Mask, target: after-state, or before-state for removals); exactly one event per changed entity as a multiset; 2 configurations (thorough 24)",
+		Outside: "order of events inside one batch call; more than one operation after installing the listener",
+	},
 }
